@@ -87,6 +87,7 @@ type Result struct {
 	Hung      bool
 	Deadlock  bool
 	CPUSpin   bool
+	MemBlowup bool
 	Dump      string
 	SyncErr   bool
 	Waits     []Snap
@@ -229,7 +230,7 @@ func (s *Session) isReadlineGoroutine() (kind string, onMain bool) {
 }
 
 // MaxFaultReads is the logical bound after which repeated failing reads are a read storm.
-const MaxFaultReads = 64
+const MaxFaultReads = 200000
 
 func (s *Session) gateRead(inner io.ReadCloser, p []byte) (int, error) {
 	s.mu.Lock()
@@ -390,6 +391,10 @@ var SessionWall = 30 * time.Second
 // CPULimit is the CPU time one call may consume before it is called a spin.
 var CPULimit = 10 * time.Second
 
+// MemLimit is the live heap one call may reach before it is called a runaway allocation
+// (inputs are at most a few KiB; the normal working set is a few MiB).
+var MemLimit uint64 = 3 << 30
+
 func cpuNow() time.Duration {
 	var ru unix.Rusage
 	unix.Getrusage(unix.RUSAGE_SELF, &ru)
@@ -456,6 +461,14 @@ loop:
 		case o = <-done:
 			break loop
 		case <-tick.C:
+			var ms runtime.MemStats
+			runtime.ReadMemStats(&ms)
+			if ms.HeapAlloc > MemLimit {
+				res.CPUSpin, res.MemBlowup = true, true
+				res.Hung = true
+				res.Dump = allStacks()
+				break loop
+			}
 			if cpuNow()-cpu0 > CPULimit {
 				res.CPUSpin = true
 				res.Hung = true
